@@ -32,6 +32,46 @@ def full_digest(r):
     return hashlib.sha1(json.dumps(d, sort_keys=True).encode()).hexdigest()
 
 
+def lookalike_files(rng):
+    """several included files stamped from one template (same lengths, same offsets, different names):
+    whatever orders symbols or messages by position alone cannot tell them apart"""
+    n = rng.choice([2, 3, 3, 4])
+    tags = rng.sample(["aaa", "bbb", "ccc", "ddd", "eee", "fff"], n)
+    body = rng.choice([
+        "mod%s:\n#d8 1\n.loop:\n#d8 2\nval%s = 5\n",
+        "%sinit:\n#d16 0x1234\n%sdone:\n#d8 0\n.x:\n.y:\n",
+        "k%s = 1\nj%s = 2\n#d8 3\n",
+        "tbl%s:\n#res 2\nend%s:\n#d8 undefined_thing\n",          # the same error at the same place in each file
+    ])
+    files = {"main.asm": "".join('#include "%s.asm"\n' % t for t in tags) + "#d8 0xff\n"}
+    for t in tags:
+        files["%s.asm" % t] = body % (t, t)
+    return files
+
+
+def history_pair(rng):
+    """two programs with the same macro text at the same place but the base rules in a different
+    order: whatever one assembly leaves behind in the process must not reach the next one"""
+    rules = ["lo {v: u4} => 0x1 @ v", "lo {v: u8} => 0x2 @ v`8 @ 0x0", "hi {v: u4} => 0x3 @ v", "hi {v} => 0x4 @ v`8 @ 0x0",
+             "nop => 0x00", "lo {v: u4}, {w: u4} => 0x5 @ v @ w @ 0x0"]
+    rng.shuffle(rules)
+    rules = rules[:rng.randrange(3, 7)]
+    if not any(r.startswith("lo") for r in rules):
+        rules.append("lo {v: u8} => 0x2 @ v`8 @ 0x0")
+    if not any(r.startswith("hi") for r in rules):
+        rules.append("hi {v} => 0x4 @ v`8 @ 0x0")
+    arg = rng.choice(["5", "15", "16", "200", "lab"])
+    head = "#ruledef mac\n{\n    pair {x} => asm\n    {\n        lo {x}\n        hi {x}\n    }\n}\n"
+    tail = "lab:\npair %s\n" % arg
+
+    def prog(rs):
+        return head + "#ruledef base\n{\n" + "".join("    %s\n" % r for r in rs) + "}\n" + tail
+    other = list(rules)
+    while other == rules and len(rules) > 1:
+        rng.shuffle(other)
+    return prog(rules), prog(other)
+
+
 def run_c10(ck):
     quick = ck.tier == "quick"
     rng = random.Random(ck.seed)
@@ -55,6 +95,15 @@ def run_c10(ck):
         if j["mode"] == "asm":
             j["formats"] = FORMATS_ALL
         base.append((n, j))
+    for i in range(30 if quick else 400):
+        base.append(("lookalike%d" % i, {"mode": "asm", "files": lookalike_files(rng), "roots": ["main.asm"], "formats": FORMATS_ALL,
+                                         "want": {"messages": True, "printed": True}}))
+    for i in range(25 if quick else 300):
+        a, b = history_pair(rng)
+        for tag, text in (("a", a), ("b", b)):
+            base.append(("history%d%s" % (i, tag), {"mode": "asm", "files": {"main.asm": text}, "roots": ["main.asm"],
+                                                    "formats": ["binary", "annotated", "symbols"],
+                                                    "want": {"messages": True, "printed": True}}))
     src = "#ruledef { ld {x: u8} => 0x11 @ x }\nA = 1\nB = 2\nstart:\nld A\nld start\n.inner:\nld B\n"
     for args in BAD_CMDLINES:
         base.append(("cmdline:" + " ".join(args[2:]), {"mode": "drive", "files": {"main.asm": src}, "args": args,
